@@ -31,6 +31,97 @@ func hasGuard(gl []absint.GuardInfo, xKey, op string, y int64, outcome bool) boo
 	return false
 }
 
+// boundGuards: which of "t <= hi" and "t >= lo" are implied by the branch outcomes in
+// force, and whether one of them is contradicted ("t > hi" or "t < lo" holds). A guard
+// is brought into the form L <= R or L < R and R-L compared, as a linear form, with
+// hi-t, hi+1-t, t-lo, t-lo+1 (and their negations), so the way the test is written
+// (diff > 127 failing, -128 <= diff passing, operands swapped) does not matter.
+func boundGuards(o absint.Ops, gl []absint.GuardInfo, t *absint.Int, lo, hi int64) (upper, lower, violated bool) {
+	k := func(v int64) *absint.Int { return absint.NewConst(t.W, uint64(v), true) }
+	up0 := o.Sub(k(hi), t).Lin.Key()   // hi - t >= 0
+	up1 := o.Sub(k(hi+1), t).Lin.Key() // hi+1 - t > 0
+	lo0 := o.Sub(t, k(lo)).Lin.Key()   // t - lo >= 0
+	lo1 := o.Sub(t, k(lo-1)).Lin.Key() // t - (lo-1) > 0
+	vu0 := o.Sub(t, k(hi+1)).Lin.Key() // t - (hi+1) >= 0
+	vu1 := o.Sub(t, k(hi)).Lin.Key()   // t - hi > 0
+	vl0 := o.Sub(k(lo-1), t).Lin.Key() // lo-1 - t >= 0
+	vl1 := o.Sub(k(lo), t).Lin.Key()   // lo - t > 0
+	for _, g := range gl {
+		if g.Cmp == nil {
+			continue
+		}
+		x, _ := g.Cmp.X.(*absint.Int)
+		y, _ := g.Cmp.Y.(*absint.Int)
+		if x == nil || y == nil || x.W != t.W || y.W != t.W {
+			continue
+		}
+		op := g.Cmp.Op
+		if !g.Outcome {
+			op = map[string]string{">": "<=", ">=": "<", "<": ">=", "<=": ">", "==": "!=", "!=": "=="}[op]
+		}
+		var l, r *absint.Int
+		strict := false
+		switch op {
+		case "<=":
+			l, r = x, y
+		case "<":
+			l, r, strict = x, y, true
+		case ">=":
+			l, r = y, x
+		case ">":
+			l, r, strict = y, x, true
+		default:
+			continue
+		}
+		d := o.Sub(r, l).Lin.Key()
+		switch {
+		case !strict && d == up0, strict && d == up1:
+			upper = true
+		case !strict && d == lo0, strict && d == lo1:
+			lower = true
+		case !strict && (d == vu0 || d == vl0), strict && (d == vu1 || d == vl1):
+			violated = true
+		}
+	}
+	return
+}
+
+// lookupGuard reports whether the guards contain a map-lookup "found" test with the
+// given outcome.
+func lookupGuard(gl []absint.GuardInfo, found bool) bool {
+	for _, g := range gl {
+		if strings.HasPrefix(g.Key, "lookup#") && strings.HasSuffix(g.Key, ".ok") && g.Outcome == found {
+			return true
+		}
+	}
+	return false
+}
+
+// errNilness decides whether an error value is nil on the path described by the guards.
+func errNilness(v absint.Val, gl []absint.GuardInfo) absint.Tri {
+	t, ok := v.(*absint.Top)
+	if !ok {
+		return absint.TriTop
+	}
+	switch {
+	case t.Key == "nil":
+		return absint.TriT
+	case t.NonNil:
+		return absint.TriF
+	case t.NilIf != nil:
+		key, neg := absint.GateOf(t.NilIf)
+		for _, g := range gl {
+			if g.Key == key {
+				if g.Outcome != neg {
+					return absint.TriT
+				}
+				return absint.TriF
+			}
+		}
+	}
+	return absint.TriTop
+}
+
 func C06(ctx *Ctx) {
 	R := ctx.R
 	R.Explanation = "offsets: the label helpers are interpreted (Emitter cells) to obtain the operand address they record relative to the instruction start; Finalize is interpreted for an arbitrary iteration of its loops (loop-carried values and cells written in loops unknown) to obtain, as terms over the reference r, the label address L and base: the patch index, the patched value and the guards in force. The identities checked: recorded r = start+1 (first operand byte) for both helper kinds; relative patch = int8(L - (r+1)) with r+1 = start+2 = end of the 2-byte branch, at code[r-base]; absolute patch = little-endian uint16(L & $FFFF) into code[r-base : r-base+2]. range-guard: the relative patch is under the found-edge of the label lookup and under diff<=127 and diff>=-128 on the very diff that is stored; every failing edge returns a freshly made error. confined: the mod-set of Finalize is the target bytes and the two dangling maps. redefine: in Label the map update is under the not-found edge of the lookup of the same name and the found edge panics."
@@ -136,7 +227,7 @@ func C06(ctx *Ctx) {
 		switch {
 		case ev.Kind == "dyn-store" && strings.Contains(absint.ValKey(ev.Args[1]), "a.code"):
 			v, _ := ev.Args[2].(*absint.Int)
-			patches = append(patches, patch{ev.Args[0].(*absint.Int), v, ev.GuardL, 1, ctx.Prog.Pos(ev.Pos)})
+			patches = append(patches, patch{ev.Args[0].(*absint.Int), v, ev.PathL, 1, ctx.Prog.Pos(ev.Pos)})
 		case ev.Kind == "ext-call" && strings.HasSuffix(ev.Callee, "PutUint16") && len(ev.Args) == 3:
 			sl, _ := ev.Args[1].(*absint.Slice)
 			v, _ := ev.Args[2].(*absint.Int)
@@ -156,7 +247,7 @@ func C06(ctx *Ctx) {
 					}
 				}
 				if okWin {
-					patches = append(patches, patch{sl.Off, v, ip.GuardListOf(ev), 2, ctx.Prog.Pos(ev.Pos)})
+					patches = append(patches, patch{sl.Off, v, ev.PathL, 2, ctx.Prog.Pos(ev.Pos)})
 				} else {
 					R.Fail("offsets", "Finalize:u16-window", ctx.Prog.Pos(ev.Pos), "the 16-bit patch does not cover exactly two bytes: "+absint.ValKey(sl))
 				}
@@ -166,6 +257,7 @@ func C06(ctx *Ctx) {
 	if len(patches) != 2 {
 		R.Fail("offsets", "Finalize:patches", fpos, fmt.Sprintf("%d patch sites found, want one 8-bit and one 16-bit", len(patches)))
 	}
+	var relDiff *absint.Int
 	for _, p := range patches {
 		key := fmt.Sprintf("Finalize:patch%d", 8*p.width)
 		// the reference r: the single loop-element atom the index depends on
@@ -206,14 +298,10 @@ func C06(ctx *Ctx) {
 				R.Pass("offsets", key, p.pos, "code[r-base] = int8(L-(r+1)), r = start+1: displacement from the end of the branch")
 			}
 			// range guards on the very diff
-			dk := diff.Lin.Key()
-			okG := hasGuard(p.guards, dk, ">", 127, false) && hasGuard(p.guards, dk, "<", -128, false)
-			okL := false
-			for _, g := range p.guards {
-				if strings.HasPrefix(g.Key, "lookup#") && strings.HasSuffix(g.Key, ".ok") && g.Outcome {
-					okL = true
-				}
-			}
+			relDiff = diff
+			up, low, _ := boundGuards(o, p.guards, diff, -128, 127)
+			okG := up && low
+			okL := lookupGuard(p.guards, true)
 			if okG && okL {
 				R.Pass("range-guard", "Finalize:relative", p.pos, "under label found, diff <= 127, diff >= -128")
 			} else {
@@ -234,12 +322,7 @@ func C06(ctx *Ctx) {
 			default:
 				R.Pass("offsets", key, p.pos, "code[r-base : r-base+2] = uint16(L&$FFFF) little-endian, r = start+1")
 			}
-			okL := false
-			for _, g := range p.guards {
-				if strings.HasPrefix(g.Key, "lookup#") && strings.HasSuffix(g.Key, ".ok") && g.Outcome {
-					okL = true
-				}
-			}
+			okL := lookupGuard(p.guards, true)
 			if okL {
 				R.Pass("range-guard", "Finalize:absolute", p.pos, "under label found")
 			} else {
@@ -247,42 +330,73 @@ func C06(ctx *Ctx) {
 			}
 		}
 	}
-	// every return other than the final success returns a freshly made error; the
-	// nil return is not reachable on a failing edge
+	// returns of Finalize and of the error-returning functions it calls: a path on which
+	// a label lookup failed or the displacement is out of range ends in a non-nil error,
+	// each kind of failure has such a return, and Finalize has a success return
 	okRet := true
-	nErr, nNil := 0, 0
+	nLookupErr, nRangeErr, nNil := 0, 0, 0
 	for _, ev := range ip.Events {
-		if ev.Kind != "return" {
+		if ev.Kind != "return" || ev.Fn == nil || len(ev.Args) == 0 {
 			continue
 		}
-		k := absint.ValKey(ev.Args[0])
-		fresh := strings.Contains(k, "ext:fmt.Errorf") || strings.Contains(k, "ext:errors.New")
-		failing := false
-		for _, g := range ev.GuardL {
-			if strings.HasSuffix(g.Key, ".ok") && strings.HasPrefix(g.Key, "lookup#") && !g.Outcome {
-				failing = true
+		res := ev.Fn.Signature.Results()
+		if res.Len() == 0 || res.At(res.Len()-1).Type().String() != "error" {
+			continue
+		}
+		v := ev.Args[0]
+		if tp, ok := v.(*absint.Tuple); ok && len(tp.E) > 0 {
+			v = tp.E[len(tp.E)-1]
+		}
+		pos := ctx.Prog.Pos(ev.Pos)
+		// a value that is nil exactly under a named condition is looked at on both sides
+		cases := [][]absint.GuardInfo{ev.PathL}
+		if t, isTop := v.(*absint.Top); isTop && t.NilIf != nil && errNilness(v, ev.PathL) == absint.TriTop {
+			key, _ := absint.GateOf(t.NilIf)
+			cases = nil
+			for _, out := range []bool{false, true} {
+				gl := append([]absint.GuardInfo(nil), ev.PathL...)
+				gl = append(gl, absint.GuardInfo{Key: key, Outcome: out, Cmp: t.NilIf.Cmp})
+				cases = append(cases, gl)
 			}
 		}
-		switch {
-		case fresh:
-			nErr++
-		case k == "top:nil":
-			nNil++
-			if failing {
-				okRet = false
-				R.Fail("range-guard", "Finalize:nil-on-failure", ctx.Prog.Pos(ev.Pos), "success is returned although a label lookup failed")
+		for _, gl := range cases {
+			lookupFailed := lookupGuard(gl, false)
+			// a return that can be reached without both range tests having passed (the arms
+			// of `diff > 127 || diff < -128` meet before the return, so no single outcome is
+			// in force there) and not because of a failed lookup
+			rangeFailed := false
+			if relDiff != nil {
+				up, low, viol := boundGuards(o, gl, relDiff, -128, 127)
+				rangeFailed = viol || (!lookupFailed && !(up && low) && errNilness(v, gl) == absint.TriF)
 			}
-		default:
-			okRet = false
-			R.Fail("range-guard", "Finalize:error-return", ctx.Prog.Pos(ev.Pos), "a return yields "+k+", neither nil nor a new error")
+			switch errNilness(v, gl) {
+			case absint.TriT:
+				if ev.Fn == fin {
+					nNil++
+				}
+				if lookupFailed || rangeFailed {
+					okRet = false
+					R.Fail("range-guard", "Finalize:nil-on-failure", pos, "success is returned although a label lookup failed or a displacement is out of range")
+				}
+			case absint.TriF:
+				if lookupFailed {
+					nLookupErr++
+				}
+				if rangeFailed {
+					nRangeErr++
+				}
+			default:
+				okRet = false
+				R.Fail("range-guard", "Finalize:error-return", pos, "cannot decide whether the returned error "+absint.ValKey(v)+" is nil on this path")
+			}
 		}
 	}
-	if nErr < 3 || nNil != 1 {
+	if nLookupErr < 2 || nRangeErr < 1 || nNil < 1 {
 		okRet = false
-		R.Fail("range-guard", "Finalize:error-returns", fpos, fmt.Sprintf("%d error returns and %d success returns; want an error for each of: unresolved relative label, out of range, unresolved absolute label, and one success return", nErr, nNil))
+		R.Fail("range-guard", "Finalize:error-returns", fpos, fmt.Sprintf("%d error returns after a failed lookup, %d after an out-of-range displacement, %d success returns; want an error for an unresolved relative label, an unresolved absolute label and an out-of-range branch, and a success return", nLookupErr, nRangeErr, nNil))
 	}
 	if okRet {
-		R.Pass("range-guard", "Finalize:error-returns", fpos, fmt.Sprintf("%d failing cases each return a new error; one success return", nErr))
+		R.Pass("range-guard", "Finalize:error-returns", fpos, fmt.Sprintf("failed lookups (%d returns) and out-of-range displacements (%d) end in a non-nil error; nil is returned on no failing path", nLookupErr, nRangeErr))
 	}
 	// ---- confined
 	ms := newModSets(ctx)
